@@ -37,8 +37,8 @@ class Spendable(TxOut):
             stream_struct(
                 "#LIbI",
                 f,
-                self.previous_hash,  # type: ignore[attr-defined]
-                self.previous_index,  # type: ignore[attr-defined]
+                self.tx_hash,
+                self.tx_out_index,
                 self.block_index_available,
                 bool(self.does_seem_spent),
                 self.block_index_spent,
